@@ -50,7 +50,12 @@ def int_to_note(note_int, accidentals="#"):
     'Eb'
     """
     if note_int not in range(12):
-        raise RangeError("int out of bounds (0-11): %d" % note_int)
+        try:
+            shown = "%d" % note_int
+        except ValueError:
+            # more digits than Python is willing to write out in decimal
+            shown = "%#x" % note_int
+        raise RangeError("int out of bounds (0-11): %s" % shown)
     ns = ["C", "C#", "D", "D#", "E", "F", "F#", "G", "G#", "A", "A#", "B"]
     nf = ["C", "Db", "D", "Eb", "E", "F", "Gb", "G", "Ab", "A", "Bb", "B"]
     if accidentals == "#":
